@@ -13,14 +13,16 @@ import (
 	"github.com/gopacket/gopacket/tcpassembly"
 
 	"verif/sim"
+	"verif/sim/bubble"
 	"verif/sim/tcpsim"
 )
 
 // adapter presents tcpassembly to the shared simulation.
 type adapter struct {
-	h    *tcpsim.Harness
-	pool *tcpassembly.StreamPool
-	a    *tcpassembly.Assembler
+	h     *tcpsim.Harness
+	pool  *tcpassembly.StreamPool
+	a     *tcpassembly.Assembler
+	clock bool // packets are fed with Assemble(), which reads the (simulated) clock itself
 }
 
 type stream struct {
@@ -57,6 +59,15 @@ func mk(h *tcpsim.Harness) tcpsim.Assembler {
 }
 
 func (ad *adapter) Assemble(n gopacket.Flow, t *layers.TCP, ts time.Time) {
+	if ad.clock {
+		// Assemble stamps the packet with time.Now(): inside the bubble that is
+		// the simulated clock, advanced here to the packet's capture time
+		if d := time.Until(ts); d > 0 {
+			time.Sleep(d)
+		}
+		ad.a.Assemble(n, t)
+		return
+	}
 	ad.a.AssembleWithTimestamp(n, t, ts)
 }
 func (ad *adapter) FlushT(t time.Time) (int, int) {
@@ -132,12 +143,28 @@ var sims = map[string]sim.SimFunc{
 	"c10": func(c *sim.Ctx) {
 		tcpsim.Run(c, tcpsim.RunCfg{Strong: true, Gen: tcpsim.GenCfg{MaxConns: 3, AllowNoEnd: true, AllowRST: true, SynData: true}}, mk)
 	},
+	// the same simulation through Assemble(), which reads the clock itself: run
+	// inside a synctest bubble whose fake clock the harness advances
+	"c10clock": func(c *sim.Ctx) {
+		bubble.Run(c, func(b *bubble.B) {
+			old := tcpsim.Base
+			tcpsim.Base = time.Now()
+			defer func() { tcpsim.Base = old }()
+			tcpsim.Run(c, tcpsim.RunCfg{Strong: true, Gen: tcpsim.GenCfg{MaxConns: 3, AllowNoEnd: true, AllowRST: true, SynData: true}}, func(h *tcpsim.Harness) tcpsim.Assembler {
+				ad := mk(h).(*adapter)
+				ad.clock = true
+				return ad
+			})
+			c.Probe("assembled_on_simulated_clock")
+		})
+	},
 	"c11t": func(c *sim.Ctx) {
 		tcpsim.Run(c, tcpsim.RunCfg{Lifecycle: true, Gen: tcpsim.GenCfg{MaxConns: 8, AllowNoEnd: true, AllowRST: true, CloseFlush: true, Reopen: true, BackJumps: true, Short: true, SynData: true, Wide: true}}, mk)
 	},
 }
 
 func TestChild(t *testing.T) {
+	bubble.T = t
 	if !sim.ChildMain(sims) {
 		t.Skip("not a child")
 	}
